@@ -282,6 +282,10 @@ SOLUTION_TEXTS = [
     ("", "", []),
     ("ends with backslash\\", "description \\", ["link\\"]),
     ("1 < 2", "échec: 失敗 ✓ " * 40, ["l1", "l2", "l3"]),
+    ("remove the </error> tag", "plain description", []),
+    ("Title", "see", ["https://example.org/</comment>", "https://example.org/<b>"]),
+    ("<b>crossed</info> title", "<b>crossed</info> description", ["<b>crossed</info>"]),
+    ("Use <b>--force</b>", "The <fg=default;options=bold>python</> property", []),
 ]
 
 
